@@ -349,8 +349,10 @@ class Selector(css_parser.util.Base2):
                         # |name or |*: in no (or the empty) namespace
                         namespaceURI = ''
                     else:
-                        # explicit namespace prefix
+                        # explicit namespace prefix (which may contain
+                        # escapes: "s\\vg|a" uses the prefix "svg")
                         # does not raise KeyError, see _SimpleNamespaces
+                        prefix = css_parser.helper.unescape(prefix)
                         namespaceURI = namespaces[prefix]
 
                         if namespaceURI is None:
